@@ -97,6 +97,23 @@ def judge_twin(name, seed, seq, fresh_envs=True):
         if outs[0] != outs[2]:
             which = [n for n, x, y in zip(('state', 'observation', 'reward', 'done'), outs[0], outs[2]) if x != y]
             return f'debug flag off changes the trajectory at operation {i} ({op} {a or ""}): {which} differ'
+    # late seeding: reset, THEN seed, then the first random operation is an observation (no memo yet for the stateful read,
+    # and the functional one): nothing may come from the library-level generator, and two environments treated alike agree
+    late = []
+    for j in (1, 2):
+        e = envs.slot(name, ('late', j), seed + 31)
+        e.reset()
+        e.step(list(e.action_space.actions)[0])
+        before = global_fp(proxy)
+        e.set_seed(seed)
+        o1 = sdesc(e.observation)
+        o2 = sdesc(e.functional_observation(e.state))
+        after = global_fp(proxy)
+        if before != after:
+            return f'an observation read right after set_seed() (before any reset/step) perturbed: {what_changed(before, after)}'
+        late.append((o1, o2))
+    if late[0] != late[1]:
+        return 'two environments seeded alike after the same history observe differently right after set_seed()'
     # an environment that has been USED (odd / even number of earlier draws) and is then given the seed behaves like a
     # fresh one with that seed
     for prior in (0, 1, 2):
@@ -258,6 +275,51 @@ def judge_interleaving(name, seed, merge, noise, acts, fresh_envs=True):
     return None
 
 
+SAME_SHAPE_PAIRS = [('keydoor.5x5', 'teleport.5x5'), ('teleport.5x5', 'keydoor.5x5'), ('keydoor.7x7', 'crossing.7x7'),
+                    ('crossing.7x7', 'teleport.7x7'), ('dynamic_obstacles.5x5', 'keydoor.5x5'), ('memory.5x5', 'crossing.5x5'),
+                    ('teleport.7x7', 'keydoor.7x7'), ('crossing.5x5', 'dynamic_obstacles.5x5'), ('empty.4x4', 'empty.4x4')]
+
+
+def judge_bystander(name, other, seed, acts):
+    """environment A (seeded) is run alone, and interleaved in every order with a bystander V built from ANOTHER
+    configuration of the SAME grid shape (seeded differently): A's trajectory must not notice.  States are read right after
+    each operation and again at the end (an object handed out at reset must not be moved by the other environment)."""
+    a1, a2 = Action[acts[0]], Action[acts[1]]
+
+    def ops_for(e):
+        def step_read(a):
+            r, d = e.step(a)
+            return envs.snapshot(e, r, d)
+        return [lambda: (e.reset(), envs.snapshot(e))[1], lambda: step_read(a1), lambda: step_read(a2)]
+
+    solo = [f() for f in ops_for(envs.slot(name, 'solo', seed))]
+    n = 0
+    for pos in itertools.combinations(range(5), 2):
+        for vseed in (seed + 5, seed + 6):
+            A, V = envs.slot(name, 'A', seed), envs.slot(other, 'V', vseed)
+            va = list(V.action_space.actions)
+            oA = ops_for(A)
+            oV = [lambda: (V.reset(), V.state, V.observation), lambda: (V.step(va[0]), V.observation)]
+            hist = []
+            ia = iv = 0
+            order = ''
+            for slot_i in range(5):
+                if slot_i in pos:
+                    oV[iv]()
+                    iv += 1
+                    order += 'V'
+                else:
+                    hist.append(oA[ia]())
+                    ia += 1
+                    order += 'A'
+            n += 1
+            if hist != solo:
+                k = next(i for i, (x, y) in enumerate(zip(hist, solo)) if x != y)
+                return n, (f'{name} (seed {seed}) diverges from its solo run at its operation {k} when interleaved as {order} with a '
+                           f'{other} environment (seed {vseed}) of the same grid shape')
+    return n, None
+
+
 def _inter_work(job):
     name, seed, noise, acts, lo, step = job
     lists = [[0, 1, 2], [0, 1, 2], [0, 1], [0, 1]]
@@ -378,6 +440,8 @@ def replay(case):
                                case['colours'], case['seed'])
     if k == 'reset_debug':
         return judge_reset_debug(case['name'], {kk: (tuple(v) if isinstance(v, list) else v) for kk, v in case['params'].items()}, case['seed'])
+    if k == 'bystander':
+        return judge_bystander(case['config'], case['other'], case['seed'], case['acts'])[1]
     if k == 'hashproc':
         return judge_hashproc(case['config'], case['seed'], case['hashseeds'])
     raise ValueError(k)
@@ -443,6 +507,17 @@ def run(rep, tier, seed):
         fails.extend(fl)
     rep.part('interleavings', merges=inn, operations=iops, lists='A:3 ops, B:3 ops (same seed), U:2 ops (unseeded), noise:2 ops; all 25200 merges per case',
              cases=sorted({(j[0], j[2]) for j in ijobs}))
+    bn = 0
+    for name, other in SAME_SHAPE_PAIRS:
+        for sd in seeds[:2]:
+            for acts in (['MOVE_FORWARD', 'TURN_LEFT'], ['TURN_RIGHT', 'MOVE_RIGHT']):
+                k, m = judge_bystander(name, other, sd, acts)
+                bn += k
+                if m:
+                    fails.append({'kind': 'bystander', 'config': name, 'other': other, 'seed': sd, 'acts': acts, 'message': m,
+                                  'sig': {'part': 'bystander', 'config': name}})
+    inn += bn
+    rep.part('same_shape_bystanders', interleavings=bn, pairs=[f'{a} | {b}' for a, b in SAME_SHAPE_PAIRS])
     # hash order in process
     hn = 0
     for fn_name, params in SET_PARAM_CALLS:
@@ -500,7 +575,8 @@ def run(rep, tier, seed):
         uniq.append(f)
     dyn.report_fails(rep, uniq, replay)
     rep.sample({'kind': 'twin', 'config': 'synthetic', 'seed': seeds[0], 'seq': ['MOVE_FORWARD', 'TURN_LEFT', 'MOVE_LEFT']})
-    rep.sample({'kind': 'interleave', 'config': 'synthetic', 'merge': 'ABNUABUNAB'})
+    rep.sample({'kind': 'interleave', 'config': 'synthetic', 'seed': seeds[0], 'noise': 'numpy', 'acts': ['MOVE_FORWARD', 'TURN_LEFT'],
+                'merge': [[0, 0], [1, 0], [3, 0], [2, 0], [0, 1], [1, 1], [2, 1], [3, 1], [0, 2], [1, 2]]})
     rep.exhaustive = False
     rep.assume('seeds and PYTHONHASHSEED values are finite sets (rotated by VERIF_SEED); the in-process permutation of set '
                'iteration order is what makes the hash-order part exhaustive')
